@@ -60,6 +60,7 @@ type ChainOpts struct {
 	MaxValidators uint32
 	UnbondingTime time.Duration
 	GenesisTime   time.Time
+	RegisterOnlyFirst bool
 	RegisterEVM   bool // register an EVM address for every validator at genesis+ (assumption A-1)
 	GenesisHook   func(gs map[string]json.RawMessage, c *Chain)
 	HomeDir       string
@@ -212,6 +213,9 @@ func NewChain(o ChainOpts) (*Chain, error) {
 	c.Ctx = c.newCtx()
 	if o.RegisterEVM {
 		for i, v := range c.Vals {
+			if o.RegisterOnlyFirst && i > 0 {
+				break
+			}
 			evm := make([]byte, 20)
 			evm[0] = 0xE0
 			evm[19] = byte(i + 1)
